@@ -14,8 +14,9 @@ RULE = ("a case = any workflow generated for the other properties (lattices, ind
         "symmetries and one-dimensional blocks, diagonalisation, density matrix, field operators, G, chi incl. the default "
         "compute() without frequency list, vertex and its storage, susceptibilities, averages, truncation, container "
         "histories, operator algebra, dispatcher on mock MPI) executed with ASan + UBSan (-fno-sanitize-recover) + "
-        "_GLIBCXX_ASSERTIONS; a sanitizer report, assertion or crash is a violation; non-trivial = distinct workflow")
-TRUSTED = ["clang/gcc AddressSanitizer, UndefinedBehaviorSanitizer, libstdc++ assertions as observers of the real library"]
+        "_GLIBCXX_ASSERTIONS, plus a few complete workflows on an uninstrumented build under valgrind memcheck (reads of "
+        "uninitialised memory); a sanitizer/memcheck report, assertion or crash is a violation; non-trivial = distinct workflow")
+TRUSTED = ["clang/gcc AddressSanitizer, UndefinedBehaviorSanitizer, libstdc++ assertions, valgrind memcheck as observers of the real library"]
 ASSUMPTIONS = ["PARTIAL: only the modelled accesses are PROVED in range (index-chasing loops, Matsubara storage, operator "
                "comparison, index table, state-label bounds tests); memory safety of everything else is OBSERVED under "
                "sanitizers on the generated workflows, which is testing, not proof"]
@@ -77,6 +78,75 @@ def correspondence(ctx):
             ctx.samples.append(dict(campaign=pid, sample=sub.samples[0]))
 
 
+    valgrind_lane(ctx)
+
+
+VG_KINDS = ("Conditional jump or move depends on uninitialised value", "Use of uninitialised value", "Invalid read", "Invalid write",
+            "Invalid free", "Mismatched free", "Source and destination overlap", "Syscall param")
+
+
+def run_valgrind(exe, script, timeout=1800):
+    """memcheck report blocks that have a frame of the library (or of the harness) among their first frames"""
+    import os, re, subprocess, tempfile
+    e = dict(os.environ)
+    e.update(pmlib.MPI_ENV)
+    e["OMP_NUM_THREADS"] = "1"
+    with tempfile.TemporaryDirectory(prefix="pmvg") as d:
+        sp = os.path.join(d, "script.txt")
+        with open(sp, "w") as f:
+            f.write("\n".join(script) + "\n")
+        try:
+            p = subprocess.run(["valgrind", "--error-exitcode=0", "--undef-value-errors=yes", "--num-callers=14", exe, sp,
+                                os.path.join(d, "case.txt")], capture_output=True, text=True, env=e, timeout=timeout, errors="replace")
+        except subprocess.TimeoutExpired:
+            return None, []
+    blocks = re.split(r"\n==\d+== \n", p.stderr)
+    bad = []
+    for b in blocks:
+        lines = [re.sub(r"^==\d+== ?", "", l) for l in b.strip().splitlines()]
+        if not lines or not lines[0].startswith(VG_KINDS):
+            continue
+        frames = [l.strip() for l in lines[1:] if l.strip().startswith(("at ", "by "))]
+        # the access itself must be in code of the library / harness (inlined Eigen/STL frames directly below it are fine),
+        # not inside the MPI runtime or the C library start-up code
+        top = frames[:6]
+        if any("Pomerol::" in f or "pMPI::" in f for f in top) and not any(("libmpi" in f or "libopen-" in f or "libpmix" in f) for f in frames[:2]):
+            bad.append(lines[0] + " | " + " <- ".join(f.split(" (")[0][3:] for f in frames[:5]))
+    return p.returncode, bad
+
+
+def valgrind_lane(ctx):
+    """reads of uninitialised memory are undefined behaviour that ASan/UBSan do not see: a few complete workflows run on an
+    uninstrumented build under valgrind memcheck"""
+    import pipeline
+    r = ctx.rng
+    thorough = ctx.tier == "thorough"
+    exe = pmlib.build_harness("pipe", "real", sanitize=False)
+    n = 24 if thorough else 4
+    for k in range(n):
+        m = pipeline.gen_model(r, max_modes=r.choice([2, 3, 3]))
+        M = m.modes()
+        beta = r.choice([1.0, 2.0, 5.0])
+        s = pipeline.core_script(m, order=r.below(2), symm=r.choice(["default", "default", "ignore"]), early=r.chance(1, 3), stress=r.chance(1, 3))
+        s += pipeline.observables_script(r, m, beta, M, ngf=3, nchi=1, nsusc=1, ntriples=2)
+        rc, bad = run_valgrind(exe, s)
+        ctx.evaluations += 1
+        ctx.count("valgrind_workflows")
+        if rc is None:
+            ctx.count("valgrind_timeouts")
+            continue
+        ctx.distinct.add(("valgrind", tuple(s)))
+        if bad:
+            ctx.problem("sanitizer", "valgrind memcheck: " + bad[0], harness="pipe-valgrind", script=s, log="\n".join(bad[:10]),
+                        signature="valgrind:" + bad[0][:60], from_property="C17")
+            break
+
+
 def replay(ctx, rp):
+    if rp.get("harness") == "pipe-valgrind":
+        exe = pmlib.build_harness("pipe", "real", sanitize=False)
+        rc, bad = run_valgrind(exe, rp["script"])
+        print("\n".join(bad))
+        return 1 if bad else 0
     mod = importlib.import_module("props." + rp.get("from_property", "C01"))
     return mod.replay(ctx, rp)
